@@ -313,7 +313,7 @@ Definition finished (s : sys) : Prop := pm s = MReturned /\ pl s = LDone /\ pi s
    dynamically by the harness (1-8 devices under -race), not proved. *)
 Record pdev := mkPdev { pd_cfg : Device.config; pd_st : Device.state; pd_out : list Device.out }.
 
-Fixpoint upd_nth {A : Type} (j : nat) (f : A -> A) (l : list A) : list A :=
+Fixpoint upd_nth {A : Type} (j : nat) (f : A -> A) (l : list A) {struct l} : list A :=
   match l, j with
   | [], _ => []
   | x :: r, 0 => f x :: r
